@@ -2,7 +2,7 @@
    origins.go).  cty's convertibility is an input (a table computed by the real library for the
    types occurring in the case): theorems are proved for an arbitrary [conv]. *)
 From Coq Require Import String List ZArith Bool.
-From HV Require Import Base.Sexp Base.Str Base.Pos Base.SortSpec Model.Addr Model.DepKeys Model.Schema.
+From HV Require Import Base.Sexp Base.Str Base.Pos Base.SortSpec Base.Lex Model.Addr Model.DepKeys Model.Schema.
 Import ListNotations.
 Open Scope string_scope.
 
@@ -154,8 +154,57 @@ Fixpoint target_depth (t : target) : nat :=
 
 Definition forest_depth (ts : list target) : nat := fold_right (fun t n => Nat.max (target_depth t) n) O ts.
 
-(* Targets.Less *)
-Definition targets_less (a b : target) : bool :=
+(* cty.Type.GoString for the types the model knows *)
+Fixpoint ty_gostring (t : ty) : string :=
+  let fix tys (l : list ty) : list string := match l with [] => [] | a :: r => ty_gostring a :: tys r end in
+  let fix oas (l : list (string * (ty * bool))) : list string :=
+    match l with [] => [] | (n, (t, _)) :: r => (go_quote n ++ ":" ++ ty_gostring t) :: oas r end in
+  let fix opts (l : list (string * (ty * bool))) : list string :=
+    match l with [] => [] | (n, (_, o)) :: r => if o then go_quote n :: opts r else opts r end in
+  match t with
+  | TNil => "cty.NilType" | TDyn => "cty.DynamicPseudoType"
+  | TBool => "cty.Bool" | TNum => "cty.Number" | TStr => "cty.String"
+  | TList e => "cty.List(" ++ ty_gostring e ++ ")"
+  | TSet e => "cty.Set(" ++ ty_gostring e ++ ")"
+  | TMap e => "cty.Map(" ++ ty_gostring e ++ ")"
+  | TTuple [] => "cty.EmptyTuple"
+  | TTuple ts => "cty.Tuple([]cty.Type{" ++ join ", " (tys ts) ++ "})"
+  | TObject [] => "cty.EmptyObject"
+  | TObject ats =>
+      match opts ats with
+      | [] => "cty.Object(map[string]cty.Type{" ++ join ", " (oas ats) ++ "})"
+      | os => "cty.ObjectWithOptionalAttrs(map[string]cty.Type{" ++ join ", " (oas ats) ++ "}, []string{" ++ join ", " os ++ "})"
+      end
+  end.
+
+(* Targets.Less (after the fix commit): lexicographic on
+   (local address, address, position, scope, type name, name) *)
+Definition lex := lexc.
+
+Definition orange_cmp (a b : option range) : comparison :=
+  match a, b with
+  | None, None => Eq
+  | None, Some _ => Lt
+  | Some _, None => Gt
+  | Some x, Some y =>
+      lex (String.compare (r_file x) (r_file y))
+          (lex (Z.compare (p_byte (r_start x)) (p_byte (r_start y))) (Z.compare (p_byte (r_end x)) (p_byte (r_end y))))
+  end.
+
+Definition type_name (t : ty) : string := match t with TNil => "" | _ => ty_gostring t end.
+
+Definition target_cmp (a b : target) : comparison :=
+  lex (String.compare (addr_string (t_local a)) (addr_string (t_local b)))
+ (lex (String.compare (addr_string (t_addr a)) (addr_string (t_addr b)))
+ (lex (orange_cmp (t_rng a) (t_rng b))
+ (lex (String.compare (t_scope a) (t_scope b))
+ (lex (String.compare (type_name (t_type a)) (type_name (t_type b)))
+      (String.compare (t_name a) (t_name b)))))).
+
+Definition targets_less (a b : target) : bool := match target_cmp a b with Lt => true | _ => false end.
+
+(* ... and before it: neither asymmetric nor transitive *)
+Definition targets_less_prefix (a b : target) : bool :=
   String.ltb (addr_string (t_local a)) (addr_string (t_local b)) || String.ltb (addr_string (t_addr a)) (addr_string (t_addr b)).
 
 (* ---- completion: MatchWalk ---- *)
